@@ -1,70 +1,205 @@
 (* C40 — Replicated writes leave every replica with the same blob.
-   Only statements closed by [exact]; proofs live in proof/ReplWriteProofs.v. *)
+   Only statements closed by [exact]; proofs live in proof/ReplWriteProofs.v (the
+   replication request, field by field) and proof/ReplWriteHistProofs.v (the state machine).
+
+   The model (model/ReplWrite.v) is a state machine: every listed location of the
+   volume holds, per file id, nothing / a record (cookie, needle) / a tombstone; a step
+   is an upload or a delete sent to the primary, with a fault per replica for that step
+   only.  The theorems speak about ONE step from an ARBITRARY state (whatever earlier
+   uploads and deletes - acknowledged or failed half-way - left on the servers), and
+   therefore about every step of every history. *)
 From Coq Require Import List NArith Bool String.
-From SW Require Import model.ReplWrite proof.ReplWriteProofs.
+From SW Require Import model.ReplWrite proof.ReplWriteProofs proof.ReplWriteHistProofs.
 Import ListNotations.
 Local Open Scope string_scope.
 Local Open Scope N_scope.
 
-(* The property at full strength — for every client request, every oracle answer
-   and every fault, an acknowledged upload leaves every listed replica with the
-   primary's outcome — is false for the code as it is. *)
-Theorem c40_same_outcome_refuted : exists u,
-  success (upload_status u) = true /\ upload_consistent (upload_status u) (views_after_upload u) = false.
+(* The property at full strength — every acknowledged upload leaves every listed
+   replica with the primary's outcome — is false for the code as it is. *)
+Theorem c40_same_outcome_refuted : exists h,
+  exists2 r, nth_error (run (init 1 false false) h) 0 = Some r &
+  success (snd r) = true /\ upload_consistent (snd r) (key_views (fst r) 7) = false.
 Proof. exact same_outcome_refuted. Qed.
 Print Assumptions c40_same_outcome_refuted.
 
 (* finding 0: the replica re-derives the mime type (sniffed type instead of none;
    a PUT's application/octet-stream dropped) *)
 Theorem c40_refuted_mime :
-  success (upload_status witness_sniffed) = true /\
-  upload_consistent (upload_status witness_sniffed) (views_after_upload witness_sniffed) = false /\
-  map so_mime (views_after_upload witness_sniffed) = [""; "text/plain; charset=utf-8"] /\
-  success (upload_status witness_put_octet) = true /\
-  map so_mime (views_after_upload witness_put_octet) = [octet; ""].
+  statuses one_replica witness_sniffed = [201] /\
+  consistent_of_run one_replica witness_sniffed = [false] /\
+  triggers_of_run one_replica witness_sniffed = [Some 0] /\
+  map (map so_mime) (views_of_run one_replica witness_sniffed) = [[""; "text/plain; charset=utf-8"]] /\
+  statuses one_replica witness_put_octet = [201] /\
+  triggers_of_run one_replica witness_put_octet = [Some 0] /\
+  map (map so_mime) (views_of_run one_replica witness_put_octet) = [[octet; ""]].
 Proof. exact same_outcome_refuted_mime. Qed.
 Print Assumptions c40_refuted_mime.
 
 (* finding 1: an empty payload keeps nothing on the primary, everything on the
    replica, and the acknowledged delete leaves the primary still serving it *)
 Theorem c40_refuted_empty :
-  success (upload_status witness_empty) = true /\
-  upload_consistent (upload_status witness_empty) (views_after_upload witness_empty) = false /\
-  map so_name (views_after_upload witness_empty) = [""; "a.txt"] /\
-  success (delete_status witness_empty) = true /\
-  map so_state (views_after_delete witness_empty) = [0; 2].
+  statuses one_replica witness_empty = [201; 202] /\
+  consistent_of_run one_replica witness_empty = [false; false] /\
+  triggers_of_run one_replica witness_empty = [Some 1; Some 1] /\
+  map (map so_name) (views_of_run one_replica witness_empty) = [[""; "a.txt"]; [""; ""]] /\
+  map (map so_state) (views_of_run one_replica witness_empty) = [[0; 0]; [0; 2]].
 Proof. exact same_outcome_refuted_empty. Qed.
 Print Assumptions c40_refuted_empty.
 
-(* The strongest true statement: outside the two decidable triggers, for every
-   request (POST or PUT, any name, mime, pairs, ts, ttl, cm, gzip-encoded or not),
-   every oracle answer, any number of replicas and ANY fault (a replica answering 500,
-   unreachable, or not holding the volume), an acknowledged upload leaves every
-   listed replica with the primary's decoded content, name, mime, pairs,
-   last-modified and TTL, and an acknowledged delete leaves the file served by no
-   listed replica. *)
-Theorem c40_same_outcome_partial : forall u,
-  trig_empty u = false -> trig_mime u = false ->
-  upload_consistent (upload_status u) (views_after_upload u) = true /\
-  delete_consistent (delete_status u) (views_after_delete u) = true.
-Proof. exact same_outcome_partial. Qed.
-Print Assumptions c40_same_outcome_partial.
+(* finding 2: a server that finds the bytes it holds unchanged keeps its old metadata
+   and acknowledges, while the other servers are sent - and may store - the new request.
+   Without any fault: the same bytes under another mime type (the replica's stored bytes
+   were the gzip stream, now they are plain, so the replica rewrites).  With a fault: an
+   upload that failed on the replica, then the same bytes under another name. *)
+Theorem c40_refuted_unchanged :
+  statuses one_replica witness_unchanged = [201; 204] /\
+  consistent_of_run one_replica witness_unchanged = [true; false] /\
+  triggers_of_run one_replica witness_unchanged = [None; Some 2] /\
+  map (map so_mime) (views_of_run one_replica witness_unchanged) = [["text/plain"; "text/plain"]; ["text/plain"; "image/jpeg"]] /\
+  statuses one_replica witness_unchanged_fault = [500; 204] /\
+  consistent_of_run one_replica witness_unchanged_fault = [true; false] /\
+  triggers_of_run one_replica witness_unchanged_fault = [None; Some 2] /\
+  map (map so_name) (views_of_run one_replica witness_unchanged_fault) = [["a.txt"; ""]; ["a.txt"; "b.txt"]].
+Proof. exact same_outcome_refuted_unchanged. Qed.
+Print Assumptions c40_refuted_unchanged.
 
-(* (full) a replica that answers with an error, is unreachable, or is a volume server
-   that does not hold the volume (the repaired ReplicatedWrite) makes the upload fail
-   towards the client; the first two also make the delete fail *)
-Theorem c40_failure_reported : forall u,
-  (u_fault u = 1 \/ u_fault u = 2 \/ u_fault u = 3 -> success (upload_status u) = false) /\
-  (u_fault u = 1 \/ u_fault u = 2 -> success (delete_status u) = false).
-Proof. exact failure_reported. Qed.
-Print Assumptions c40_failure_reported.
+(* The strongest true statement for uploads.  From ANY state of the primary and of any
+   number of listed locations (holding the volume or not), for every request (POST or
+   PUT, any name, mime, pairs, ts, ttl, cm, gzip-encoded or not), every oracle answer,
+   every cookie and every per-replica fault of the step: if the upload is acknowledged
+   then every listed location serves the primary's decoded content, name, mime, pairs,
+   last-modified and TTL for the file id - outside three decidable triggers, each
+   evaluated on this step alone: (1) the primary stores the empty record while the
+   replicas are sent a gzip stream; (0) the body is not empty and the replica re-derives
+   the mime type of this request; (2) some server holds exactly the bytes it is sent,
+   under the same cookie, with another outcome (it answers "unchanged" and keeps the old
+   one) - unless every server does and they all agree already. *)
+Theorem c40_upload_step_partial : forall sy o q k ck fs,
+  trig_empty o q = false -> trig_mime o q = false -> trig_unchanged sy o q k ck = false ->
+  upload_consistent (snd (upload_step sy o q k ck fs)) (key_views (fst (upload_step sy o q k ck fs)) k) = true.
+Proof. exact upload_step_partial. Qed.
+Print Assumptions c40_upload_step_partial.
 
-(* regression witness of the repaired defect (formerly finding 2): the listed location
-   without the volume holds nothing and the upload is answered with 500 *)
+(* Inside trigger 0 only the mime type can differ: outside triggers 1 and 2 an
+   acknowledged upload leaves every listed location with the primary's decoded content,
+   name, pairs, last-modified and TTL ... *)
+Theorem c40_upload_step_but_mime : forall sy o q k ck fs,
+  trig_empty o q = false -> trig_unchanged sy o q k ck = false ->
+  success (snd (upload_step sy o q k ck fs)) = true ->
+  forallb (same_but_mime (slot_view (sy_p (fst (upload_step sy o q k ck fs)) k)))
+          (map (fun r => server_view r k) (sy_r (fst (upload_step sy o q k ck fs)))) = true.
+Proof. exact upload_step_but_mime. Qed.
+Print Assumptions c40_upload_step_but_mime.
+
+(* ... and (full, no trigger at all) an acknowledged upload ALWAYS leaves every listed
+   location serving the same decoded bytes: the findings are about metadata only. *)
+Theorem c40_upload_step_content : forall sy o q k ck fs,
+  success (snd (upload_step sy o q k ck fs)) = true ->
+  forallb (same_content (slot_view (sy_p (fst (upload_step sy o q k ck fs)) k)))
+          (map (fun r => server_view r k) (sy_r (fst (upload_step sy o q k ck fs)))) = true.
+Proof. exact upload_step_content. Qed.
+Print Assumptions c40_upload_step_content.
+
+(* The strongest true statement for deletes: from any state, for every cookie and
+   every fault, an acknowledged delete leaves the file id served by no listed location -
+   unless some server holds the Size = 0 record of an empty upload for it (finding 1,
+   evaluated on this file id and this state) ... *)
+Theorem c40_delete_step_partial : forall sy k ck fs,
+  trig_empty_slot sy k = false ->
+  delete_consistent (snd (delete_step sy k ck fs)) (key_views (fst (delete_step sy k ck fs)) k) = true.
+Proof. exact delete_step_partial. Qed.
+Print Assumptions c40_delete_step_partial.
+
+(* ... and (full) whatever a server still serves after an acknowledged delete is that
+   empty record. *)
+Theorem c40_delete_step_residual : forall sy k ck fs,
+  success (snd (delete_step sy k ck fs)) = true ->
+  forallb gone_or_empty (key_views (fst (delete_step sy k ck fs)) k) = true.
+Proof. exact delete_step_residual. Qed.
+Print Assumptions c40_delete_step_residual.
+
+(* The triggers are no wider than the violations.  Trigger 0 and trigger 1, on a file id
+   the primary and the first listed replica do not hold yet: an acknowledged upload inside
+   the trigger is inconsistent (for trigger 1: unless the stored last-modified is 0). *)
+Theorem c40_trig_mime_exact : forall o q k ck p s rs fs,
+  p k = Absent -> s k = Absent -> trig_mime o q = true ->
+  let r := upload_step {| sy_p := p; sy_r := Some s :: rs; sy_nolookup := false |} o q k ck fs in
+  success (snd r) = true -> upload_consistent (snd r) (key_views (fst r) k) = false.
+Proof. exact trig_mime_exact. Qed.
+Print Assumptions c40_trig_mime_exact.
+
+Theorem c40_trig_empty_exact : forall o q k ck p s rs fs,
+  p k = Absent -> s k = Absent -> trig_empty o q = true ->
+  n_lastmod (create_needle o q) mod 1099511627776 <> 0 ->
+  let r := upload_step {| sy_p := p; sy_r := Some s :: rs; sy_nolookup := false |} o q k ck fs in
+  success (snd r) = true -> upload_consistent (snd r) (key_views (fst r) k) = false.
+Proof. exact trig_empty_exact. Qed.
+Print Assumptions c40_trig_empty_exact.
+
+(* Trigger 2, from any state: outside triggers 0 and 1 an acknowledged upload inside
+   trigger 2 is inconsistent. *)
+Theorem c40_trig_unchanged_exact : forall sy o q k ck fs,
+  trig_unchanged sy o q k ck = true -> trig_empty o q = false -> trig_mime o q = false ->
+  success (snd (upload_step sy o q k ck fs)) = true ->
+  upload_consistent (snd (upload_step sy o q k ck fs)) (key_views (fst (upload_step sy o q k ck fs)) k) = false.
+Proof. exact trig_unchanged_exact. Qed.
+Print Assumptions c40_trig_unchanged_exact.
+
+(* The delete trigger, from any state: an acknowledged delete inside it is inconsistent. *)
+Theorem c40_trig_empty_slot_exact : forall sy k ck fs,
+  trig_empty_slot sy k = true -> success (snd (delete_step sy k ck fs)) = true ->
+  delete_consistent (snd (delete_step sy k ck fs)) (key_views (fst (delete_step sy k ck fs)) k) = false.
+Proof. exact trig_empty_slot_exact. Qed.
+Print Assumptions c40_trig_empty_slot_exact.
+
+(* (full) a replica that fails every attempt of the step (it answers 500, drops the
+   connection, or serves the request and loses the answer), a listed volume server that
+   does not hold the volume (the repaired ReplicatedWrite), or a location lookup that
+   fails or lists fewer locations than the copy count, makes the upload fail towards
+   the client, from any state ... *)
+Theorem c40_upload_failure_reported : forall sy o q k ck fs,
+  existsb blocks_upload (firstn (List.length (sy_r sy)) fs) = true \/ In None (sy_r sy) \/ sy_nolookup sy = true ->
+  success (snd (upload_step sy o q k ck fs)) = false.
+Proof. exact upload_failure_reported. Qed.
+Print Assumptions c40_upload_failure_reported.
+
+(* ... and a replica that fails the single attempt of a delete (once is enough:
+   util.Delete does not retry), or a failing lookup, makes the delete fail. *)
+Theorem c40_delete_failure_reported : forall sy k ck fs,
+  existsb blocks_delete (firstn (List.length (sy_r sy)) fs) = true \/ sy_nolookup sy = true ->
+  success (snd (delete_step sy k ck fs)) = false.
+Proof. exact delete_failure_reported. Qed.
+Print Assumptions c40_delete_failure_reported.
+
+(* (full) a step on one file id changes what no server holds for another *)
+Theorem c40_step_frame : forall sy s k', k' <> s_key s ->
+  key_views (fst (do_step sy s)) k' = key_views sy k'.
+Proof. exact step_frame. Qed.
+Print Assumptions c40_step_frame.
+
+(* every step of every history from every state: consistent outside the step's own
+   trigger, the rest of the property inside it, and every blocking fault reported *)
+Theorem c40_history_partial : forall h sy, hist_ok sy h.
+Proof. exact history_partial. Qed.
+Print Assumptions c40_history_partial.
+
+(* an upload that failed on the replica and its identical retry: the primary finds its
+   copy unchanged (204) and the replica is sent the needle nevertheless - outside every
+   trigger, all servers agree afterwards *)
+Theorem c40_retry_reaches_replica :
+  statuses one_replica witness_retry = [500; 204] /\
+  triggers_of_run one_replica witness_retry = [None; None] /\
+  map (map so_state) (views_of_run one_replica witness_retry) = [[0; 1]; [0; 0]] /\
+  consistent_of_run one_replica witness_retry = [true; true].
+Proof. exact retry_reaches_replica. Qed.
+Print Assumptions c40_retry_reaches_replica.
+
+(* regression witness of the repaired defect (formerly finding 2 of the first round): the
+   listed location without the volume holds nothing and the upload is answered with 500 *)
 Theorem c40_lost_volume_reported :
-  map so_state (views_after_upload witness_lost_volume) = [0; 3] /\
-  upload_status witness_lost_volume = 500 /\
-  upload_consistent (upload_status witness_lost_volume) (views_after_upload witness_lost_volume) = true.
+  statuses (init 1 true false) witness_lost_volume = [500] /\
+  map (map so_state) (views_of_run (init 1 true false) witness_lost_volume) = [[0; 3]] /\
+  consistent_of_run (init 1 true false) witness_lost_volume = [true].
 Proof. exact lost_volume_reported. Qed.
 Print Assumptions c40_lost_volume_reported.
 
@@ -90,21 +225,29 @@ Proof.
 Qed.
 Print Assumptions c40_fields_always_equal.
 
-(* non-vacuity: a request with a name, a mime the extension does not imply, pairs, a
-   TTL, a large text payload the replication client gzips, two replicas and a delete is
-   outside every trigger, is acknowledged, and the replica's stored form differs
-   (compressed flag) while its outcome is the same *)
+(* non-vacuity: a three-step history on two replicas - an upload with a name, a mime the
+   extension does not imply, pairs, a TTL and a large text payload the replication client
+   gzips, failing on the second replica; the identical retry, whose first attempt the first
+   replica answers with 500; a delete - is outside every trigger at every step, and every
+   step satisfies the hypotheses of the partial theorems with a non-trivial outcome (the
+   replicas' stored form differs: compressed) *)
 Example c40_example :
-  let u := {| u_req := {| q_put := false; q_name := "dir/report.txt"; q_ctype := "text/x-log"; q_gzip := false;
-                          q_pairs := [("A", "1"); ("Bb", "v v")]; q_ts := 0; q_ttl_set := true; q_ttl := (3, 1);
-                          q_cm := false; q_body := {| b_len := 19800; b_crc := 3515653520; b_gz := false |} |};
-              u_oracles := {| o_detect := "text/plain; charset=utf-8"; o_gz128 := true;
-                              o_ext_types := [(".txt", "text/plain; charset=utf-8")] |};
-              u_nrepl := 2; u_fault := 0; u_delete := true |} in
-  trigger u = None /\ upload_status u = 201 /\
-  map so_flags (views_after_upload u) = [62; 63; 63] /\
-  map so_name (views_after_upload u) = ["report.txt"; "report.txt"; "report.txt"] /\
-  map so_mime (views_after_upload u) = ["text/x-log"; "text/x-log"; "text/x-log"] /\
-  upload_consistent (upload_status u) (views_after_upload u) = true /\
-  map so_state (views_after_delete u) = [2; 2; 2].
-Proof. vm_compute. repeat split. Qed.
+  triggers_of_run (init 2 false false) example_hist = [None; None; None] /\
+  statuses (init 2 false false) example_hist = [500; 204; 202] /\
+  map (map so_flags) (views_of_run (init 2 false false) example_hist) = [[62; 63; 0]; [62; 63; 63]; [0; 0; 0]] /\
+  map (map so_state) (views_of_run (init 2 false false) example_hist) = [[0; 0; 1]; [0; 0; 0]; [2; 2; 2]] /\
+  map (map so_name) (views_of_run (init 2 false false) example_hist) =
+    [["report.txt"; "report.txt"; ""]; ["report.txt"; "report.txt"; "report.txt"]; [""; ""; ""]] /\
+  consistent_of_run (init 2 false false) example_hist = [true; true; true].
+Proof. exact example_history. Qed.
+Print Assumptions c40_example.
+
+(* non-vacuity of the exactness theorems: requests inside trigger 0 and trigger 1, and
+   an empty payload that is NOT inside trigger 1 (it reaches the replica empty) *)
+Example c40_example_exact :
+  trig_mime (mk_or text_utf8 [(".bin", octet)]) (mk_req false "b.bin" "" 24 1485685935) = true /\
+  trig_empty (mk_or text_utf8 txt_types) (mk_req false "a.txt" "text/plain" 0 0) = true /\
+  n_lastmod (create_needle (mk_or text_utf8 txt_types) (mk_req false "a.txt" "text/plain" 0 0)) mod 1099511627776 <> 0 /\
+  trig_empty (mk_or text_utf8 [(".jpg", "image/jpeg")]) (mk_req false "c.jpg" "image/png" 0 0) = false.
+Proof. exact example_exact. Qed.
+Print Assumptions c40_example_exact.
